@@ -63,6 +63,9 @@ class Lexer(object):
 
     @TOKEN(r'("(\\.|[^"\\])*")|(\'(\\.|[^\'\\])*\')')
     def t_STRING(self, t):
+        # A quoted string may run over several lines; keep the line count true for everything after it
+        t.lexer.lineno += len(t.value.replace("\r\n", "\n").replace("\r", "\n").split("\n")) - 1
+
         try:
             t.value = t.value[1:-1].encode("latin-1", "backslashreplace").decode("unicode_escape")
         except UnicodeDecodeError:
